@@ -106,17 +106,20 @@ def one_case(args):
                         if rng.random() < 0.5 and (dc, dp) != (0, 0):
                             continue
                         cfg = dict(cdps=max(0, t["rdhs"] + dc), triggers_pht=max(0, pht_true + dp))
-                        r = go(path, margs + fargs + ["-E", str(N)], cfg)
+                        # each key also alone in the file (the other one commented out): a check that is not configured reports nothing,
+                        # a configured one is enforced whatever else the file holds
+                        off_keys = rng.choice([(), (), ("cdps",), ("triggers_pht",)])
+                        r = go(path, margs + fargs + ["-E", str(N)], cfg, commented=off_keys)
                         if r.abnormal(allowed_rc=(0, N)) or r.stats is None:
                             return bad("abnormal end: %s" % r.abnormal(allowed_rc=(0, N)), r)
                         ce = r.stats["error_stats"]["custom_checks_stats_errors"]
                         has1 = any("[E9001]" in m for m in ce)
                         has2 = any("[E9002]" in m for m in ce)
                         out["events"] += 2
-                        if has1 != (cfg["cdps"] != t["rdhs"]):
-                            return bad("E9001: configured cdps=%d, the input has %d RDHs, [E9001] %s" % (cfg["cdps"], t["rdhs"], "reported" if has1 else "missing"), r)
-                        if has2 != (cfg["triggers_pht"] != pht_true):
-                            return bad("E9002: configured triggers_pht=%d, %d PhT packets analysed, [E9002] %s" % (cfg["triggers_pht"], pht_true, "reported" if has2 else "missing"), r)
+                        if has1 != (cfg["cdps"] != t["rdhs"] and "cdps" not in off_keys):
+                            return bad("E9001: configured cdps=%s, the input has %d RDHs, [E9001] %s" % ("-" if "cdps" in off_keys else cfg["cdps"], t["rdhs"], "reported" if has1 else "missing"), r)
+                        if has2 != (cfg["triggers_pht"] != pht_true and "triggers_pht" not in off_keys):
+                            return bad("E9002: configured triggers_pht=%s, %d PhT packets analysed, [E9002] %s" % ("-" if "triggers_pht" in off_keys else cfg["triggers_pht"], pht_true, "reported" if has2 else "missing"), r)
                         want_rc = N if (has1 or has2) else 0
                         if r.rc != want_rc:
                             return bad("exit: status %s, expected %d" % (r.rc, want_rc), r)
